@@ -41,8 +41,12 @@ def build_tree(g, a, b):
             pre, post = r.choice(["", "my-", "x-"]), r.choice(["", "-test"])
             if st == "Train":
                 pre, post = pre.capitalize() if pre else "", ("-Test" if post else "")
-        else:
-            pre, post = "", ""
+        elif st == "Pascal":
+            pre, post = r.choice(["", "My", "Get"]), r.choice(["", "Test", "Impl"])
+        else:  # Camel: a leading word makes the term's first word capitalised
+            pre, post = r.choice(["", "my", "get"]), r.choice(["", "Test", "Impl"])
+            if pre:
+                w, nw = gen.render(a, "Pascal"), gen.render(b, "Pascal")
         return pre + w + post, pre + nw + post
 
     for _ in range(r.randint(1, 4)):
@@ -86,14 +90,17 @@ def run(R):
     H, M = core.Harness([str(hp)]), core.Model([str(mp)])
     g = gen.G(R.seed * 214013 + 8)
     r = g.r
-    n = 80 if R.tier == "quick" else 2000
+    n = 300 if R.tier == "quick" else 2000
     fails, dis = [], []
     stats = {"trees": 0, "expected_renames": 0, "flags": {}, "roots": {}, "symlink_renames": 0}
     for i in range(n):
         a, b = g.term_pair()
         tree, expect = build_tree(g, a, b)
         tj = cli.tree_json(tree)
-        search, replace = gen.render(a, "Snake"), gen.render(b, "Snake")
+        # the two terms as the user types them: any boundary-visible style, independently
+        typed = ["Snake", "Snake", "Kebab", "Camel", "Pascal", "ScreamingSnake", "Train", "ScreamingTrain", "Dot"]
+        search, replace = gen.render(a, r.choice(typed)), gen.render(b, r.choice(typed))
+        stats["typed"] = stats.get("typed", 0) + (search != gen.render(a, "Snake") or replace != gen.render(b, "Snake"))
         rf, rd = r.choice([(True, True), (True, True), (False, True), (True, False), (False, False)])
         dirs = [e["p"] for e in tree if e["k"] == "d"]
         roots_kind = r.choice(["default", "default", "nested", "repeated"]) if dirs else "default"
@@ -103,7 +110,7 @@ def run(R):
         elif roots_kind == "repeated":
             roots = ["", ""]
         req = {"op": "scan_tree", "tree": tj, "search": core.hx(search), "replace": core.hx(replace),
-               "options": {"rename_files": rf, "rename_dirs": rd, "coerce": "auto"}}
+               "options": {"rename_files": rf, "rename_dirs": rd, "coerce": "auto", "styles": list(gen.DEFAULT_STYLES)}}
         if roots:
             req["roots"] = roots
         sr = H.ask(req)
@@ -154,7 +161,7 @@ def run(R):
                 fails.append({"why": f"entries whose own name does not contain the term are scheduled: {extra[:3]}", **ctx})
                 continue
             # model correspondence with the real variant table
-            vm = H.ask({"op": "variant_map", "which": "scanner", "search": core.hx(search), "replace": core.hx(replace), "plurals": True})
+            vm = H.ask({"op": "variant_map", "which": "scanner", "search": core.hx(search), "replace": core.hx(replace), "plurals": True, "styles": list(gen.DEFAULT_STYLES)})
             if "ok" in vm:
                 table = [[bytes.fromhex(k), bytes.fromhex(v)] for k, v in vm["ok"]]
                 listing = [[al.split_path(e["p"]), e["k"] == "d"] for e in tree]
